@@ -92,7 +92,7 @@ def judge (extraTags : List String) (rev : Bool) (names : List String) (before :
   let rootTipRemoved := rootTip && rm.contains before.name
   let hyp := uniq && nos && big
   let rootKidRemoved := before.kids.any fun et => et.2.isLeaf && rm.contains et.2.name
-  let tags0 := extraTags ++ tagIf uniq "uniq" ++ tagIf nos "nosingle" ++ tagIf (!nos) "singles" ++ tagIf rootTip "roottip" ++ tagIf rootTipRemoved "roottip-removed" ++ tagIf (rootTip && !rootTipRemoved) "roottip-kept" ++
+  let tags0 := extraTags ++ tagIf uniq "uniq" ++ tagIf nos "nosingle" ++ tagIf (!nos) "singles" ++ tagIf (!nos) "outside-quantifier:single-child-input(tie-only,exact)" ++ tagIf rootTip "roottip" ++ tagIf rootTipRemoved "roottip-removed" ++ tagIf (rootTip && !rootTipRemoved) "roottip-kept" ++
     tagIf lok "lens-ok" ++ tagIf (goodNames before) "good-names" ++ tagIf big "kept>=3" ++ tagIf (!big) "small" ++ tagIf hyp "hyp" ++
     tagIf before.rooted "rooted" ++ tagIf (rootedBin before) "rooted-bin" ++ tagIf (!before.rooted) "unrooted" ++ tagIf (maxDeg before ≥ 4 || (before.rooted && maxDeg before ≥ 3)) "multif" ++
     tagIf rev "revert" ++ tagIf (names.any fun n => !before.tipNames.contains n) "absent-names" ++
@@ -158,6 +158,9 @@ def judge (extraTags : List String) (rev : Bool) (names : List String) (before :
             tagIf (!exact && exactIO) "exact-up-to-io" ++ tagIf (!exact && !exactIO) "order-or-data-differs"
           if !big && obs before.rooted mt != obs before.rooted after then ⟨.pass, "obs-differs-degenerate" :: tags, ""⟩
           else if obs before.rooted mt != obs before.rooted after then ⟨.tie, tags, "model differs on: " ++ diffObs (obs before.rooted mt) (obs before.rooted after) ++ " model " ++ mt.dump⟩
+          -- inputs with single-child nodes are outside the quantifier: no induced-subtree oracle, but the
+          -- model must reproduce the code EXACTLY there (whole α dump: shape, order, names, branch data)
+          else if !nos && !exact then ⟨.tie, tags, "single-child input: the model's α dump differs: " ++ mt.dump⟩
           else match ixo with
             | some (ex, _, _, _) =>
               if !after.tipNames.isEmpty && mix != ex then ⟨.tie, tags, "model index " ++ showStrList mix⟩ else ⟨.pass, tags, ""⟩
@@ -176,7 +179,7 @@ def judge (extraTags : List String) (rev : Bool) (names : List String) (before :
   | o =>
     let tags := (if o.startsWith "panic" then "impl-panic" else "impl-other-outcome") :: tags0
     -- a crash, a malformed heap or an unreadable output is never acceptable when ≥ 3 tips are kept
-    if uniq && big then ⟨.oracle, tags, "pruning ended with " ++ o⟩
+    if big then ⟨.oracle, tags, "pruning ended with " ++ o⟩
     else ⟨.pass, "skip-degenerate" :: tags, o⟩
 
 def parseBool : String → Option Bool
@@ -184,17 +187,33 @@ def parseBool : String → Option Bool
 
 def handle (op : String) (f : List String) : Verdict :=
   match op, f with
-  | "remove", [revs, namess, pre, dump, outcome, adump, exs, tis, nbs, nodeoks, bits] =>
-    match parseBool revs, parseStrList namess, T.undump dump, parseStrList exs, parseIntList tis, nbs.toInt?, parseBool nodeoks with
-    | some rev, some names, some before, some ex, some ti, some nb, some nodeok =>
+  | "remove", [revs, namess, pre, dump, outcome, adump, exs, tis, nbs, tnns, tnds, tnps, rowss, ces] =>
+    match parseBool revs, parseStrList namess, T.undump dump, parseStrList exs, parseIntList tis, nbs.toInt?,
+      parseStrList tnns, parseIntList tnds, parseIntList tnps, parseIntList ces with
+    | some rev, some names, some before, some ex, some ti, some nb, some tnn, some tnd, some tnp, some ce =>
+      let rows : List (Option (List Bool)) := (splitTerm ";" rowss).map fun r =>
+        if r == "nil" then none else some (r.toList.map (· == '1'))
+      let after? := T.undump adump
+      -- TipNode, judged on its raw answers (Spec.tipNodesOK)
+      let nodeok := match after? with
+        | some after => tipNodesOK after ex tnn tnd tnp
+        | none => true
       let v := judge (tagIf (pre == "1") "preindex" ++ ["lib"]) rev names before outcome adump (some (ex, ti, nb, nodeok))
-      -- the branch indexes (bitsets) are refreshed against the NEW tip index: every branch carries the
-      -- split it induces on the remaining tips, and the pruned tree shares its branches with an
-      -- independently built copy (observed by the harness through Bitset/TipIndex/CommonEdges)
-      if bits != "1" && v.status == .pass && C06.uniq before && (kept before names rev).length ≥ 3 then
-        ⟨.oracle, "bitsets-wrong" :: v.tags, "the branch bitsets do not carry the restricted splits: " ++ bits⟩
-      else { v with tags := (if bits == "1" then "bitsets-ok" else "bitsets-unchecked") :: v.tags }
-    | _, _, _, _, _, _, _ => bad "C06.remove fields"
+      -- the branch indexes (bitsets) are refreshed against the NEW tip index: every branch carries the split
+      -- it induces on the remaining tips (Spec.bitsetsOK on the raw bitsets), and the pruned tree shares its
+      -- branches with an independently built copy (Spec.commonEdgesOK on the raw CommonEdges answers)
+      match after? with
+      | some after =>
+        if v.status == .pass && C06.uniq before && (kept before names rev).length ≥ 3 then
+          if !(bitsetsOK after ex ti rows) then
+            ⟨.oracle, "bitsets-wrong" :: v.tags, "the branch bitsets do not carry the restricted splits (width " ++
+              toString ((rows.head?.getD none).map (·.length)) ++ " for " ++ toString after.tipNames.length ++ " tips)"⟩
+          else if !(commonEdgesOK ce) then
+            ⟨.oracle, "bitsets-wrong" :: v.tags, "CommonEdges with an independently built copy of the result: " ++ ces⟩
+          else { v with tags := "bitsets-ok" :: v.tags }
+        else { v with tags := "bitsets-unchecked" :: v.tags }
+      | none => v
+    | _, _, _, _, _, _, _, _, _, _ => bad "C06.remove fields"
   | "cli", [revs, hasF, fnamess, hasC, cdump, randoms, _seed, argss, dump, outcome, adump, hook] =>
     match parseBool revs, parseBool hasF, parseStrList fnamess, parseBool hasC, randoms.toInt?, parseStrList argss, T.undump dump with
     | some rev, some hf, some fnames, some hc, some random, some args, some before =>
@@ -235,7 +254,7 @@ def handle (op : String) (f : List String) : Verdict :=
             let n := before.tipNames.length
             let k := min random.toNat n
             let left := if rev then k else n - k
-            if outcome != "ok" && wf before && left ≥ 3 then ⟨.oracle, "impl-err" :: tags, "prune --random failed: " ++ outcome⟩
+            if outcome != "ok" && wfR before && left ≥ 3 then ⟨.oracle, "impl-err" :: tags, "prune --random failed: " ++ outcome⟩
             else ⟨.pass, "skip-degenerate" :: tags, outcome⟩
         | _ =>
           let names := flags.names before []
@@ -266,14 +285,21 @@ def handle (op : String) (f : List String) : Verdict :=
             ⟨.oracle, tags, "prune --random failed or wrote " ++ toString nout ++ " trees for " ++ toString refs.length⟩
           else ⟨.pass, tagIf good "nontrivial" ++ tags, ""⟩
         | _ =>
-          let good := refs.all fun ref => wfR ref && decide (3 ≤ (kept ref (flags.names ref []) rev).length)
+          let goodTree := fun (ref : T) => wfR ref && decide (3 ≤ (kept ref (flags.names ref []) rev).length)
+          let good := refs.all goodTree
+          -- the trees before the first one outside the hypotheses must all be written
+          let prefixLen := (refs.takeWhile goodTree).length
           let (outs, err) := pruneAll flags refs []
           if good && (failed || nout != refs.length) then
             ⟨.oracle, "all-good" :: tags, "prune failed or wrote " ++ toString nout ++ " trees for " ++ toString refs.length ++
               " although every input tree satisfies the hypotheses"⟩
+          else if nout < prefixLen then
+            ⟨.oracle, tags, "prune wrote " ++ toString nout ++ " trees although the first " ++ toString prefixLen ++
+              " input trees satisfy the hypotheses"⟩
           else if good && (err.isSome || outs.length != refs.length) then ⟨.tie, tags, "model of the command fails"⟩
+          else if outs.length < prefixLen then ⟨.tie, tags, "model of the command stops before the first tree outside the hypotheses"⟩
           else if !good && (outs.length != nout || err.isSome != failed) then
-            ⟨.pass, "run-differs-outside-hyp" :: tags, ""⟩
+            ⟨.pass, "run-differs-after-first-tree-outside-hyp" :: tags, ""⟩
           else ⟨.pass, tagIf good "all-good" ++ tagIf (good && refs.length ≥ 2) "nontrivial" ++ tags, ""⟩
     | _, _, _, _, _, _, _, _ => bad "C06.run fields"
   | "tipfile", [contents, tipss, outcome, removeds] =>
